@@ -14,6 +14,8 @@ from .vloop import VLoop
 
 GRID = 15625  # us = 1/64 s: every time in a scenario is a multiple, so float arithmetic is exact
 CTL, GW, GW2 = "01:145038", "18:111111", "18:222222"
+CTL2 = "01:999999"          # a neighbour's controller
+NULL_ENTRY = "000000B0000000000000000000007FFFFF7000000000"      # the null fault-log entry (always index 00)
 EPOCH = _dt.datetime(2026, 1, 1, 12)
 
 PRELUDE = ("From Coq Require Import ZArith List Bool Arith.\nFrom RV Require Import GenConsts M_Qos.\n"
@@ -27,7 +29,7 @@ PRELUDE = ("From Coq Require Import ZArith List Bool Arith.\nFrom RV Require Imp
            "  | Done t c ErrOther => [4; t; Z.of_nat c]\n"
            "  | LoopExn t n => [5; t; Z.of_nat n] end.\n"
            "Definition sc (s : st) : Z := match s with Inactive => 0 | Idle => 1 | WantEcho => 2 | WantRply => 3 end.\n"
-           "Definition mkc (l : list cmdinfo) (c : cid) : cmdinfo := nth c l {| prio := 0; max_retries := 0%nat; timeout := 0; wfr := false; tx_hdr := 0%nat; rx_hdr := None |}.\n"
+           "Definition mkc (l : list cmdinfo) (c : cid) : cmdinfo := nth c l {| prio := 0; max_retries := 0%nat; timeout := 0; wfr := false; tx_hdr := 0%nat; rx_hdr := None; rx_null := None |}.\n"
            "Definition mkp (l : list wplan) (n : nat) : wplan := nth n l wplan0.\n"
            "Definition sim (lifo : bool) (cs : list cmdinfo) (pl : list wplan) (evs : list (Z * ext)) : list (list Z) :=\n"
            "  let '(w, fin) := run (mkc cs) (mkp pl) lifo 20000 (world0 evs) in\n"
@@ -42,7 +44,7 @@ def gen_scenario(rng, small=False):
     mode = rng.choice([False, False, False, None, True])  # PortProtocol(disable_qos=...)
     cmds = []
     for i in range(ncmd):
-        kind = rng.choice(["rq30c9", "rq30c9", "rq0006", "w2309", "i30c9"])
+        kind = rng.choice(["rq30c9", "rq30c9", "rq0006", "w2309", "i30c9", "rq0418"])
         if kind == "rq0006" and any(c["kind"] == "rq0006" for c in cmds):
             kind = "rq30c9"
         cmds.append({
@@ -73,7 +75,7 @@ def gen_scenario(rng, small=False):
     for _ in range(rng.choice([0, 0, 1, 2, 3])):
         i = rng.randrange(ncmd)
         when = GRID * rng.choice([1, 2, 3, 4, 33, 34, 35, 65, 66, 97, 98, 130, 300])
-        events.append((when, ("rx", rng.choice(["echo", "rply", "foreign_echo", "foreign_rply", "other"]), i)))
+        events.append((when, ("rx", rng.choice(["echo", "rply", "foreign_echo", "foreign_rply", "other", "null_entry", "nbr_null_entry", "nbr_null_entry_to_us", "nbr_rply"]), i)))
     if rng.random() < 0.15:
         events.append((GRID * rng.choice([3, 34, 70, 200]), ("lost", rng.choice([None, None, "transport", "serial", "oserror"]))))
         if rng.random() < 0.6:
@@ -110,6 +112,8 @@ def build_cmd(c):
         return Command.set_zone_setpoint(CTL, c["idx"], 20.0)
     if k == "i30c9":
         return Command.from_attrs(" I", CTL, "30C9", f"{c['idx']:02X}07D0")
+    if k == "rq0418":
+        return Command.get_system_log_entry(CTL, c["idx"] % 12)
     raise ValueError(k)
 
 
@@ -121,6 +125,8 @@ def reply_frame(cmd) -> str | None:
         return f"RP --- {CTL} {GW} --:------ 0006 004 00050009"
     if cmd.verb == " W" and code == "2309":
         return f" I --- {CTL} {GW} --:------ 2309 003 {cmd.payload[:2]}07D0"
+    if cmd.verb == "RQ" and code == "0418":       # a real log entry for the index asked for
+        return f"RP --- {CTL} {GW} --:------ 0418 022 0040{cmd.payload[4:6]}B0060804000000CB955F71FFFFFF70001283B3"
     return None
 
 
@@ -331,6 +337,13 @@ def rx_line(kind, cmd):
         return "045 " + rf if rf else None
     if kind == "foreign_rply":
         return "045 " + rf.replace(f"{CTL} {GW}", f"{CTL} {GW2}") if rf else None
+    if kind in ("null_entry", "nbr_null_entry", "nbr_null_entry_to_us", "nbr_rply"):      # fault-log traffic: ours and a neighbour controller's
+        if cmd.code != "0418":
+            return None
+        if kind == "nbr_rply":       # the neighbour controller's REAL entry with the same index, to its own gateway
+            return "045 " + rf.replace(f"{CTL} {GW}", f"{CTL2} {GW2}")
+        src, dst = {"null_entry": (CTL, GW), "nbr_null_entry": (CTL2, GW2), "nbr_null_entry_to_us": (CTL2, GW)}[kind]
+        return f"045 RP --- {src} {dst} --:------ 0418 022 {NULL_ENTRY}"
     return f"045  I --- {CTL} --:------ {CTL} 1F09 003 FF0708"
 
 
@@ -344,7 +357,8 @@ def scn_to_coq(scn, info) -> str:
         rxh = cmd.rx_header
         wfr = effective_wfr(scn["mode"], cmd.code, c["wfr"])
         cs.append(f"{{| prio := {c['prio']}; max_retries := {c['max_retries']}%nat; timeout := {min(c['timeout'], 10**12)}; "
-                  f"wfr := {str(wfr).lower()}; tx_hdr := {tx}%nat; rx_hdr := {('Some ' + str(hdrs(rxh)) + '%nat') if rxh else 'None'} |}}")
+                  f"wfr := {str(wfr).lower()}; tx_hdr := {tx}%nat; rx_hdr := {('Some ' + str(hdrs(rxh)) + '%nat') if rxh else 'None'}; "
+                  f"rx_null := {('Some ' + str(hdrs('null:' + rxh[:-2])) + '%nat') if rxh and rxh[:8] == '0418|RP|' else 'None'} |}}")
 
     def wp(p):
         return (f"{{| w_lat := {p['lat']}; w_fail := {str(p['fail']).lower()}; "
@@ -372,7 +386,8 @@ def scn_to_coq(scn, info) -> str:
             pk = Packet.from_port(EPOCH, line)
             src = 0 if pk.src.id == GW else (1 if pk.src.id == CTL else 2)
             p = (hdrs(pk._hdr.replace("18:000730", GW)), src, "true" if pk.dst.id == GW else "false")
-            evs.append(f"({t}, Rx {{| p_hdr := {p[0]}%nat; p_src := {p[1]}%nat; p_dst_ok := {p[2]} |}})")
+            pn = f"Some {hdrs('null:' + pk._hdr[:-2])}%nat" if pk.payload == NULL_ENTRY else "None"
+            evs.append(f"({t}, Rx {{| p_hdr := {p[0]}%nat; p_src := {p[1]}%nat; p_dst_ok := {p[2]}; p_null := {pn} |}})")
     return (f"sim {str(scn['lifo']).lower()} [" + "; ".join(cs) + "] [" + "; ".join(plan) + "] [" + "; ".join(evs) + "]")
 
 
